@@ -652,7 +652,7 @@ class QueueManagerConnector(BatchConnector, ConnectorWrapper, ABC):
         for job_id, location in self._scheduled_jobs.items():
             inner_location = get_inner_location(location)
             jobs_map.setdefault(inner_location.name, []).append(job_id)
-            loc_map.setdefault(inner_location.name, inner_location)
+            loc_map.setdefault(inner_location.name, location)
         await asyncio.gather(
             *(
                 asyncio.create_task(self._remove_jobs(loc_map[location], jobs))
